@@ -4,7 +4,7 @@ sys.path.insert(0, os.path.dirname(__file__))
 from _common import main
 import vbs_common as V
 
-BOUND = 'list helper on cut data; one file object cut, rewound and read by a second reader; files of 35..75 KiB cut around 4/8/16/32/64 KiB and at the end; records ending in runs of 0x40 (blank-filled data); VBS, blocked-VBS and IPM files of 1..7 records with record ends swept across block edges; every truncation offset 0..len (quick: every offset of 6 files; thorough: 40 files)'
+BOUND = 'files on disk read through buffered handles (default, 16, 1024, 4096 bytes) with length prefixes straddling the buffer boundaries; list helper on cut data; one file object cut, rewound and read by a second reader; files of 35..75 KiB cut around 4/8/16/32/64 KiB and at the end; records ending in runs of 0x40 (blank-filled data); VBS, blocked-VBS and IPM files of 1..7 records with record ends swept across block edges; every truncation offset 0..len (quick: every offset of 6 files; thorough: 40 files)'
 
 
 def build(kind, lens):
@@ -60,7 +60,34 @@ def oracle_same_handle(inp):
     return None
 
 
+def oracle_real_file(inp):
+    """the cut file on disk, read through a real buffered handle (what open() gives the command-line tools): a length prefix
+    or record that straddles the handle's buffer boundary is read like any other"""
+    import tempfile
+    from cardutil.mciipm import VbsReader
+    data, blocked = build(inp['file'], inp['lens'])
+    cut = data[:inp['t']]
+    want, ending, _ = V.ref_parse(V.ref_payload(cut) if blocked else cut)
+    fd, path = tempfile.mkstemp(prefix='c09_')
+    try:
+        with os.fdopen(fd, 'wb') as fh:
+            fh.write(cut)
+        with open(path, 'rb', buffering=inp['buffering']) as fh:
+            got, gend, exc = V.read_all(VbsReader(fh, blocked=blocked))
+    finally:
+        os.unlink(path)
+    if gend.startswith('crash'):
+        return 'other-exception: reader on a buffered file handle raised %s' % gend[6:]
+    if got != want:
+        return 'real-file: %s file of %d records cut at %d, read through open(..., buffering=%d): %d records delivered, %d are complete' % (inp['file'], len(inp['lens']), inp['t'], inp['buffering'], len(got), len(want))
+    if gend != ending:
+        return 'real-file: reader on the buffered handle ended with %s, expected %s' % (gend, ending)
+    return None
+
+
 def oracle(inp):
+    if inp.get('kind') == 'real-file':
+        return oracle_real_file(inp)
     if inp.get('kind') == 'helper-cut':
         return oracle_helper(inp)
     if inp.get('kind') == 'same-handle':
@@ -108,6 +135,14 @@ def cases(tier, rng):
             offs |= {c + d for d in (-1015, -1014, -5, -1, 0, 1, 2, 4, 5, 1013, 1014) if 0 <= c + d <= len(data)}
         for t in sorted(offs):
             yield {'kind': 'cut', 'file': kind, 'lens': lens, 't': t}
+    # files on disk read through buffered handles (default buffer and small ones): small records so that length prefixes
+    # straddle every buffer boundary; cut at the end, just after each boundary, and mid-record
+    for kind, lens in (('vbs', [10] * 900), ('vbs', [3, 7, 11] * 700), ('blocked', [10] * 900), ('vbs', [1000] * 20)):
+        data, _ = build(kind, lens)
+        for buffering in (-1, 16, 1024, 4096):
+            for t in sorted({len(data), len(data) - 4, len(data) - 7, 8192 + 14, 8206, 8193, 16384 + 9, 4097, 1030} if buffering == -1 else {len(data), 8206, 1030}):
+                if 0 <= t <= len(data):
+                    yield {'kind': 'real-file', 'file': kind, 'lens': lens, 't': t, 'buffering': buffering}
 
 
 if __name__ == '__main__':
